@@ -642,7 +642,9 @@ class Network:
     # async
     async def open_connection(self, host: str, port: int = 0, **k: t.Any):
         conn = self.accept(host, port)
-        reader = asyncio.StreamReader()
+        from .taps import CountingReader
+
+        reader = CountingReader()
         return reader, FakeWriter(conn, reader, self)
 
     def __enter__(self) -> "Network":
